@@ -98,6 +98,9 @@ type c15nKernel struct {
 	extDirty     bool // another program edited Felix's table after Felix last read it completely
 	reads        int  // complete reads of Felix's table (ListAll + rules) so far
 	lastReadAt   time.Time
+	// A listing of map elements failed during Felix's last complete read: its view of the
+	// verdict maps is incomplete although its view of the chains is not.
+	elemFailedThisRead, mapViewStale bool
 
 	// Counters for the Apply in progress.
 	injRunFired, injAfterCommit, natRunFailed, injListRulesFired, injListFired, raceFired, runsOK int
@@ -271,6 +274,7 @@ func (k *c15nKernel) readComplete() {
 	}
 	k.reads++
 	k.lastReadAt = k.now
+	k.mapViewStale = k.elemFailedThisRead
 	if k.listAllEpoch == k.editEpoch {
 		k.extDirty = false
 	}
@@ -278,6 +282,7 @@ func (k *c15nKernel) readComplete() {
 
 func (k *c15nKernel) ListAll(ctx context.Context) (map[string][]string, error) {
 	k.listAllOK = false
+	k.elemFailedThisRead = false
 	if k.listAllFaults > 0 {
 		k.listAllFaults--
 		k.injListFired++
@@ -333,6 +338,7 @@ func (k *c15nKernel) ListElements(ctx context.Context, objectType, name string) 
 	if k.listElemFaults > 0 {
 		k.listElemFaults--
 		k.injListFired++
+		k.elemFailedThisRead = true
 		return nil, errors.New("injected: nft list elements failed")
 	}
 	return k.fake.ListElements(ctx, objectType, name)
@@ -1063,7 +1069,7 @@ func (h *c15nH) apply(label string) bool {
 			}
 		}
 	}
-	extDirtyAtStart := k.extDirty
+	extDirtyAtStart := k.extDirty || k.mapViewStale
 	freshAtStart := h.freshTable
 	readsAtStart := k.reads
 	refreshDue := h.refresh > 0 && k.now.Sub(k.lastReadAt) > h.refresh
@@ -1098,6 +1104,9 @@ func (h *c15nH) apply(label string) bool {
 			h.classes["natural-tx-failure-after-env-trouble"] = true
 		} else {
 			h.classes["natural-tx-failure-unprovoked"] = true
+			if os.Getenv("C15N_DEBUG_UNPROVOKED") != "" { // development aid: show such a history
+				defer h.fail("debug: a transaction failed on its own without any interference")
+			}
 		}
 	}
 	// Part 5: unchanged chains not rewritten.
